@@ -1,5 +1,5 @@
 (* C17 — lemmas.  Everything holds for an arbitrary hash function (Section variable). *)
-From Coq Require Import ZArith List Bool Lia Sorting.Sorted.
+From Coq Require Import ZArith List Bool Lia Sorting.Sorted Sorting.Permutation.
 From FV Require Import Generated.Consts C17.Model.
 Import ListNotations.
 Open Scope Z_scope.
@@ -175,13 +175,73 @@ Proof.
   destruct c; [contradiction|]. cbn. eauto.
 Qed.
 
+(* ---------- sort.Sort on the collected keys ---------- *)
+
+Lemma insert_sorted_perm x l : Permutation (x :: l) (insert_sorted x l).
+Proof.
+  induction l as [|y l IH]; cbn; [apply Permutation_refl|].
+  destruct (x <=? y); [apply Permutation_refl|].
+  eapply Permutation_trans; [apply perm_swap|]. apply perm_skip, IH.
+Qed.
+
+Lemma sort_perm l : Permutation l (sort_u32 l).
+Proof.
+  induction l as [|x l IH]; cbn; [constructor|].
+  eapply Permutation_trans; [apply perm_skip, IH | apply insert_sorted_perm].
+Qed.
+
+Lemma insert_sorted_sorted x l : StronglySorted Z.le l -> StronglySorted Z.le (insert_sorted x l).
+Proof.
+  induction 1 as [|y l Hs IH Hall]; cbn; [repeat constructor|].
+  destruct (x <=? y) eqn:E.
+  - apply Z.leb_le in E. constructor; [constructor; assumption|].
+    constructor; [assumption|]. rewrite Forall_forall in *. intros z Hz. specialize (Hall _ Hz). lia.
+  - apply Z.leb_gt in E. constructor; [assumption|].
+    rewrite Forall_forall in *. intros z Hz.
+    apply (Permutation_in _ (Permutation_sym (insert_sorted_perm x l))) in Hz.
+    destruct Hz as [<-|Hz]; [lia | auto].
+Qed.
+
+Lemma sort_sorted l : StronglySorted Z.le (sort_u32 l).
+Proof. induction l as [|x l IH]; cbn; [constructor | apply insert_sorted_sorted, IH]. Qed.
+
+Lemma sorted_perm_eq l1 : forall l2, StronglySorted Z.le l1 -> StronglySorted Z.le l2 ->
+  Permutation l1 l2 -> l1 = l2.
+Proof.
+  induction l1 as [|x l1 IH]; intros l2 H1 H2 Hp.
+  - apply Permutation_nil in Hp. auto.
+  - destruct l2 as [|y l2]; [apply Permutation_sym, Permutation_nil in Hp; discriminate|].
+    inversion H1 as [|? ? Hs1 Ha1]; inversion H2 as [|? ? Hs2 Ha2]; subst.
+    rewrite Forall_forall in Ha1, Ha2.
+    assert (x = y).
+    { assert (In x (y :: l2)) by (apply (Permutation_in _ Hp); left; reflexivity).
+      assert (In y (x :: l1)) by (apply (Permutation_in _ (Permutation_sym Hp)); left; reflexivity).
+      destruct H as [->|Hx]; [reflexivity|]. destruct H0 as [->|Hy]; [reflexivity|].
+      specialize (Ha1 _ Hy). specialize (Ha2 _ Hx). lia. }
+    subst y. f_equal. apply IH; [assumption | assumption | apply (Permutation_cons_inv Hp)].
+Qed.
+
+Lemma lt_sorted_le l : StronglySorted Z.lt l -> StronglySorted Z.le l.
+Proof.
+  induction 1 as [|x l Hs IH Hall]; constructor; [assumption|].
+  rewrite Forall_forall in *. intros z Hz. specialize (Hall _ Hz). lia.
+Qed.
+
+(* whatever order the keys are collected in, sorting yields the one sorted key list *)
+Lemma sort_of_perm l k : StronglySorted Z.lt k -> Permutation l k -> sort_u32 l = k.
+Proof.
+  intros Hk Hp. apply sorted_perm_eq; [apply sort_sorted | apply lt_sorted_le, Hk|].
+  eapply Permutation_trans; [apply Permutation_sym, sort_perm | exact Hp].
+Qed.
+
 Section Proofs.
   Variable hash : list Z -> Z.
 
   (* GetNodeBy = owner of the successor point *)
-  Lemma get_node_at_spec h s : sorted_c (circle s) -> get_node_at h s = owner h (circle s).
+  Lemma get_node_at_spec h s : sorted_c (circle s) -> sorted_hash s = map fst (circle s) ->
+    get_node_at h s = owner h (circle s).
   Proof.
-    intros Hs. unfold get_node_at, sorted_hash, owner.
+    intros Hs Hc. unfold get_node_at, owner. rewrite Hc.
     remember (map fst (circle s)) as sh eqn:Esh.
     destruct sh as [|k ks].
     { destruct (circle s); [reflexivity | discriminate]. }
@@ -324,12 +384,16 @@ Section Proofs.
 
   (* ---------- the invariant of every reachable ring ---------- *)
 
+  Lemma update_sorted_hash_keys c : sorted_c c -> update_sorted_hash c = map fst c.
+  Proof. intros Hs. apply sort_of_perm; [apply sorted_keys, Hs | apply Permutation_refl]. Qed.
+
   Definition inv (s : ring) : Prop :=
     sorted_c (circle s) /\
+    sorted_hash s = map fst (circle s) /\
     forall p m, In (p, m) (circle s) -> In m (nodes s) /\ In p (points hash m).
 
   Lemma inv_empty : inv empty.
-  Proof. split; [constructor | intros p m []]. Qed.
+  Proof. split; [constructor|]. split; [reflexivity | intros p m []]. Qed.
 
   Lemma fold_add_in n pts c e :
     In e (fold_left (fun c p => circle_add p n c) pts c) -> In e c \/ (snd e = n /\ In (fst e) pts).
@@ -351,9 +415,10 @@ Section Proofs.
 
   Lemma inv_add n s : inv s -> inv (add_node hash n s).
   Proof.
-    intros [Hs Ho]. unfold add_node. destruct (mem_name n (nodes s)) eqn:M; [split; assumption|].
-    split; cbn.
+    intros [Hs [Hc Ho]]. unfold add_node. destruct (mem_name n (nodes s)) eqn:M; [exact (conj Hs (conj Hc Ho))|].
+    cbv zeta. split; [|split]; cbn [circle nodes sorted_hash].
     - apply fold_add_sorted, Hs.
+    - apply update_sorted_hash_keys, fold_add_sorted, Hs.
     - intros p m Hin. apply fold_add_in in Hin as [Hin|[E Hin]]; cbn in *.
       + destruct (Ho _ _ Hin). auto.
       + subst. auto.
@@ -361,8 +426,9 @@ Section Proofs.
 
   Lemma inv_remove x s : inv s -> inv (remove_node hash x s).
   Proof.
-    intros [Hs Ho]. unfold remove_node. split; cbn.
+    intros [Hs [Hc Ho]]. unfold remove_node. cbv zeta. split; [|split]; cbn [circle nodes sorted_hash].
     - apply fold_del_sorted, Hs.
+    - apply update_sorted_hash_keys, fold_del_sorted, Hs.
     - intros p m Hin. apply fold_del_in in Hin as [Hin Hn]. cbn in Hn.
       destruct (Ho _ _ Hin) as [H1 H2]. split; [|assumption].
       apply filter_In. split; [assumption|].
@@ -385,7 +451,7 @@ Section Proofs.
   Lemma member s key : inv s -> circle s <> [] ->
     exists n, get_node_by hash key s = Some n /\ In n (nodes s).
   Proof.
-    intros [Hs Ho] Hne. unfold get_node_by. rewrite get_node_at_spec by assumption.
+    intros [Hs [Hc Ho]] Hne. unfold get_node_by. rewrite get_node_at_spec by assumption.
     destruct (succ_entry_nonempty (hash key) _ Hne) as [[p n] He].
     exists n. unfold owner. rewrite He. split; [reflexivity|].
     apply succ_entry_in in He. apply (Ho _ _ He).
@@ -408,10 +474,13 @@ Section Proofs.
 
   Lemma remove_nonmember x s : inv s -> ~ In x (nodes s) -> remove_node hash x s = s.
   Proof.
-    intros [Hs Ho] Hx. unfold remove_node. destruct s as [c ns]; cbn in *. f_equal.
-    - apply fold_del_id. intros [p m] He E. cbn in E. subst. apply Ho in He. tauto.
+    intros [Hs [Hc Ho]] Hx. unfold remove_node. cbv zeta. destruct s as [c ns sh]; cbn [circle nodes sorted_hash] in *.
+    assert (Hfold : fold_left (fun c0 p => circle_del p x c0) (points hash x) c = c).
+    { apply fold_del_id. intros [p m] He E. cbn in E. subst. apply Ho in He. tauto. }
+    rewrite Hfold. f_equal.
     - apply filter_id. intros m Hm. destruct (name_eqb m x) eqn:E; [|reflexivity].
       apply name_eqb_eq in E. subst. contradiction.
+    - rewrite Hc. apply update_sorted_hash_keys, Hs.
   Qed.
 
   Lemma stable s o : inv s ->
@@ -430,9 +499,9 @@ Section Proofs.
     get_node_by hash key (add_node hash x s) = Some n' ->
     get_node_by hash key s <> Some n' -> n' = x.
   Proof.
-    intros Hi. pose proof (inv_add x s Hi) as Hi'. destruct Hi as [Hs _]. destruct Hi' as [Hs' _].
+    intros Hi. pose proof (inv_add x s Hi) as Hi'. destruct Hi as [Hs [Hc _]]. destruct Hi' as [Hs' [Hc' _]].
     unfold get_node_by. rewrite !get_node_at_spec by assumption.
-    unfold add_node. destruct (mem_name x (nodes s)); [congruence|]. cbn [circle].
+    unfold add_node. destruct (mem_name x (nodes s)); [congruence|]. cbv zeta. cbn [circle].
     destruct (owner_fold_add (hash key) x (points hash x) (circle s)) as [E|E]; rewrite E; congruence.
   Qed.
 
@@ -440,8 +509,8 @@ Section Proofs.
     get_node_by hash key s = Some n -> n <> x ->
     get_node_by hash key (remove_node hash x s) = Some n.
   Proof.
-    intros Hi. pose proof (inv_remove x s Hi) as Hi'. destruct Hi as [Hs _]. destruct Hi' as [Hs' _].
-    unfold get_node_by. rewrite !get_node_at_spec by assumption. cbn [remove_node circle].
+    intros Hi. pose proof (inv_remove x s Hi) as Hi'. destruct Hi as [Hs [Hc _]]. destruct Hi' as [Hs' [Hc' _]].
+    unfold get_node_by. rewrite !get_node_at_spec by assumption. unfold remove_node. cbv zeta. cbn [circle].
     apply owner_fold_del.
   Qed.
 
@@ -450,7 +519,7 @@ Section Proofs.
   Proof.
     intros Hi. pose proof (inv_remove x s Hi) as Hi'.
     destruct (circle (remove_node hash x s)) eqn:Ec.
-    - unfold get_node_by, get_node_at, sorted_hash. rewrite Ec. discriminate.
+    - destruct Hi' as [_ [Hc' _]]. unfold get_node_by, get_node_at. rewrite Hc', Ec. discriminate.
     - destruct (member _ key Hi') as [n [E Hin]]; [rewrite Ec; discriminate|].
       rewrite E. intros E'. inversion E'; subst. cbn in Hin. apply filter_In in Hin as [_ Hin].
       rewrite name_eqb_refl in Hin. discriminate.
@@ -458,7 +527,7 @@ Section Proofs.
 
   (* the sorted point list the binary search runs on *)
   Lemma sorted_hash_sorted s : inv s -> StronglySorted Z.lt (sorted_hash s).
-  Proof. intros [Hs _]. apply sorted_keys, Hs. Qed.
+  Proof. intros [Hs [Hc _]]. rewrite Hc. apply sorted_keys, Hs. Qed.
 End Proofs.
 
 (* ---------- the member set follows the history ---------- *)
@@ -571,7 +640,7 @@ Section NoCollision.
     - intros n [<-|Hn]; auto.
     - intros n p [<-|Hn] Hp.
       + destruct (fold_add_present x (points hash x) (circle s) p Hp) as [m [H1 [->|H2]]]; [exact H1|].
-        destruct Hi as [_ Ho]. destruct (Ho _ _ H2) as [Hm Hpm].
+        destruct Hi as [_ [_ Ho]]. destruct (Ho _ _ H2) as [Hm Hpm].
         destruct (name_eqb m x) eqn:E; [apply name_eqb_eq in E; subst; exact H1|].
         apply name_eqb_neq in E. exfalso. apply (disjoint m x (Hu _ Hm) Ux E p Hpm Hp).
       + apply fold_add_mono. apply Hf; assumption.
@@ -619,4 +688,13 @@ Proof.
   assert (H : circle_get p (circle (run hash ops)) = Some n).
   { apply owns_all_points; [exact Hd | rewrite En; left; reflexivity | rewrite Ep; left; reflexivity]. }
   rewrite Hc in H. discriminate.
+Qed.
+
+Lemma circle_get_keys p c : In p (map fst c) <-> circle_get p c <> None.
+Proof.
+  induction c as [|[q m] c IH]; cbn.
+  - split; [intros [] | congruence].
+  - destruct (Z.eqb_spec p q) as [->|Hne].
+    + split; [discriminate | auto].
+    + rewrite <- IH. split; [intros [E|H]; [congruence | exact H] | auto].
 Qed.
